@@ -27,6 +27,24 @@ pub struct Books {
     verified_files: BTreeSet<String>,
     pub transactions_checked: u64,
     pub fragments_seen: BTreeSet<u64>,
+    /// Canonical text of each fragment's first edit and the number of edits it holds.
+    frag_first: BTreeMap<u64, (String, usize)>,
+}
+
+fn canonical(edit: &mani::Edit) -> String {
+    let mut s = String::new();
+    for r in edit.rmed() {
+        s.push_str(&format!("-{r};"));
+    }
+    for a in edit.added() {
+        s.push_str(&format!("+{a};"));
+    }
+    for c in ['I', 'O', 'D', 'L'] {
+        if let Some(v) = edit.get_info(c) {
+            s.push_str(&format!("{c}{v};"));
+        }
+    }
+    s
 }
 
 pub fn list_fragments(root: &Path) -> Vec<(u64, PathBuf)> {
@@ -125,15 +143,30 @@ pub fn check(ex: &mut Exec) {
             for a in edit.added() {
                 state.insert(a.clone());
             }
+            if idx == 0 {
+                ex.c04.frag_first.insert(*num, (canonical(&edit), 0));
+            }
+            if let Some(ff) = ex.c04.frag_first.get_mut(num) {
+                ff.1 = idx + 1;
+            }
             if new {
                 ex.c04.seen.insert((*num, idx));
                 let (i, o, d) = match (i, o, d) {
                     (Some(i), Some(o), Some(d)) => (i, o, d),
                     _ => {
+                        let prev_empty = num
+                            .checked_sub(1)
+                            .map(|p| !ex.c04.frag_first.contains_key(&p) && ex.c04.fragments_seen.contains(&p))
+                            .unwrap_or(false);
+                        let class = if idx == 0 && canonical(&edit).is_empty() && prev_empty {
+                            "rollover:rollup-of-empty-manifest-lacks-I-O-D"
+                        } else {
+                            "chain:transaction-lacks-I-O-D"
+                        };
                         ex.violate(
                             "C04",
-                            "chain:transaction-lacks-I-O-D",
-                            format!("fragment {num} edit {idx} has no parsable I/O/D"),
+                            class,
+                            format!("fragment {num} edit {idx} has no parsable I/O/D (previous fragment file empty: {prev_empty})"),
                         );
                         return;
                     }
@@ -142,9 +175,17 @@ pub fn check(ex: &mut Exec) {
                     // Roll-up: must continue the previous fragment and carry the complete state.
                     if let Some((end_o, end_state)) = ex.c04.frag_end.get(&num.wrapping_sub(1)) {
                         if *end_o != o {
+                            let dup = match (ex.c04.frag_first.get(num), ex.c04.frag_first.get(&(num - 1))) {
+                                (Some(a), Some(b)) => a.0 == b.0 && b.1 > 1,
+                                _ => false,
+                            };
                             ex.violate(
                                 "C04",
-                                "rollover:first-edit-output-differs-from-previous-fragment",
+                                if dup {
+                                    "rollover:duplicate-fragment-after-interrupted-rollover"
+                                } else {
+                                    "rollover:first-edit-output-differs-from-previous-fragment"
+                                },
                                 format!("fragment {num} starts with O={} but fragment {} ended with O={}", o.hexdigest(), num - 1, end_o.hexdigest()),
                             );
                             return;
